@@ -28,6 +28,11 @@ func LawShapes(thorough bool) []*Shape {
 	}
 	// tags
 	out = append(out, OneFieldTags(AnnVJL, []tagVariant{tagJSON, tagFP})...)
+	// nil versus empty-but-non-nil slices / maps / []byte
+	for _, a := range AllAnnots {
+		out = append(out, NilVsEmpty(a, []tagVariant{tagNone})...)
+	}
+	out = append(out, NilVsEmpty(AnnVJL, []tagVariant{tagJSON, tagJSONOE})...)
 	// field counts
 	counts := []int{1, 2, 9, 21, 22}
 	if thorough {
@@ -82,6 +87,7 @@ func JSONShapes(thorough bool) []*Shape {
 		out = append(out, EmbeddedPairs(a)...)
 	}
 	out = append(out, OneFieldTags(AnnVJ, []tagVariant{tagJSON, tagJSONOE, tagJSONNoN, tagJSONDsh, tagFP, tagOther, tagTwo})...)
+	out = append(out, NilVsEmpty(AnnVJ, []tagVariant{tagNone, tagJSON, tagJSONOE, tagJSONNoN})...)
 	out = append(out, Grouped(AnnVJ)...)
 	out = append(out, UserDefined(AnnVJ)...)
 	if thorough {
